@@ -30,8 +30,11 @@ TaskStatus
 operator | (TaskStatus& lhs,
 			const TaskStatus rhs) noexcept
 {
-	const TaskStatus::Result result = lhs.result > rhs.result ?
-		lhs.result : rhs.result;
+	// 'TaskStatus' is packed: copy the members, never bind references to them
+	const TaskStatus::Result l = lhs.result;
+	const TaskStatus::Result r = rhs.result;
+
+	const TaskStatus::Result result = l > r ? l : r;
 
 	return TaskStatus{result};
 }
@@ -43,8 +46,11 @@ TaskStatus&
 operator |= (TaskStatus& lhs,
 			 const TaskStatus rhs) noexcept
 {
-	const TaskStatus::Result result = lhs.result > rhs.result ?
-										  lhs.result : rhs.result;
+	// 'TaskStatus' is packed: copy the members, never bind references to them
+	const TaskStatus::Result l = lhs.result;
+	const TaskStatus::Result r = rhs.result;
+
+	const TaskStatus::Result result = l > r ? l : r;
 
 	lhs = TaskStatus{result};
 
